@@ -287,7 +287,8 @@ def lapVerdict (k : Kind) (M : PM) (impl : List String) : String :=
   if impl == ["hang"] then "FAIL:lap_terminates" else
   if isCrash impl then "FAIL:lap_no_oob" else
   if d.1 != d.2 then (if impl == ["exc:bpp"] then "ok" else "FAIL:lap_nonsquare_raises") else
-  if !M.fin then "-" else
+  -- a NaN or infinite cost raises too (`lap_nonsquare_raises`; the test is part of `Lap.lap`)
+  if !M.fin then (if impl == ["exc:bpp"] then "ok" else "FAIL:lap_nonfinite_raises") else
   let n := d.1
   match splitTok ";" impl with
   | [["cost", ct], "rowsol" :: rs, "colsol" :: cs, "u" :: us, "v" :: vs] =>
